@@ -902,7 +902,47 @@ def run_shared_repeated_parent(ctx, i, rng):
         ctx.check(False, mech, dict(case=desc, apply_error=repr(e)[:200]))
 
 
+def run_sow_perturb_clash(ctx, i, rng):
+  """Two variables of one collection under one name where the SECOND user is sow() or perturb(): a clash like any other (the reverse
+  order is rejected). Own mechanisms - see known finding C02-sow-perturb-overwrite-declared-variable."""
+  import jax
+  import jax.numpy as jnp
+  import flax.linen as nn
+  from flax import errors
+  kind = ['variable_then_sow', 'variable_then_perturb', 'sow_then_variable', 'sow_twice_same_name'][i % 4]
+  desc = dict(kind=kind)
+  with ctx.case('sow_perturb_clash', i, desc, nontrivial=True):
+    class M(nn.Module):
+      @nn.compact
+      def __call__(self, x):
+        if kind == 'variable_then_sow':
+          c = self.variable('stats', 'c', jnp.zeros, ())
+          self.sow('stats', 'c', 7.0, reduce_fn=lambda a, b: a + b, init_fn=lambda: 0.0)
+          return x + c.value
+        if kind == 'variable_then_perturb':
+          self.variable('perturbations', 'p', jnp.ones, x.shape)
+          return self.perturb('p', x)
+        if kind == 'sow_then_variable':
+          self.sow('stats', 'c', 7.0, reduce_fn=lambda a, b: a + b, init_fn=lambda: 0.0)
+          return x + self.variable('stats', 'c', jnp.zeros, ()).value
+        self.sow('stats', 'c', 1.0, reduce_fn=lambda a, b: a + b, init_fn=lambda: 0.0)    # the same sow twice accumulates: legal
+        self.sow('stats', 'c', 2.0, reduce_fn=lambda a, b: a + b, init_fn=lambda: 0.0)
+        return x
+    try:
+      out = M().init_with_output(jax.random.key(0), jnp.ones((3,)))
+      raised = None
+    except errors.NameInUseError as e:
+      out, raised = None, e
+    ctx.op('init(variable / sow / perturb under one name)')
+    if kind == 'sow_twice_same_name':
+      ctx.check(raised is None and float(out[1]['stats']['c']) == 3.0, 'clash:legal_same_name_rejected:sow_twice', lambda: dict(case=desc))
+    else:
+      ctx.check(raised is not None, 'clash:not_rejected:' + kind, lambda: dict(case=desc, variables=repr(None if out is None else out[1])[:200]))
+
+
 def run(ctx):
+  for i in ctx.indices(8, 'sow_perturb_clash'):
+    run_sow_perturb_clash(ctx, i, ctx.rng('sow_perturb_clash', i))
   for i in ctx.indices(6, 'shared_repeated_parent'):
     run_shared_repeated_parent(ctx, i, ctx.rng('shared_repeated_parent', i))
   for i in ctx.indices(36 if ctx.tier == 'quick' else 72, 'write_first'):
